@@ -540,8 +540,14 @@ class Normaliser(object):
         caller_stores = set()
         loads_after = set()        # caller locals read after the call statement (or anywhere, when the call sits in a loop)
         stores_after = set()       # caller locals (re)bound after the call statement may run again: closures must not capture them
-        in_loop = any(isinstance(l, (ast.For, ast.While)) and any(x is stmt for x in ast.walk(l)) for l in ast.walk(caller_fn))
+        in_loop = any(isinstance(l, (ast.For, ast.While)) and any(x is stmt for x in ast.walk(l)) for l in ast.walk(caller_fn)) or \
+            getattr(self, '_loop_depth', 0) > 0
         at = getattr(stmt, 'lineno', 0)
+        if in_loop and h.nested and (h.nested_free & (h.stored | set(h.params))):
+            # a function object made by the helper captures the helper's own variables: one fresh set per call. Written into a loop of the
+            # caller the captured variables are the caller's, rebound by every iteration (late binding) - not the same program
+            self.skipped.append((h.fn.name, caller_fn.name, 'closure over helper locals at a call site inside a loop'))
+            return None
 
         class Skip(ast.NodeVisitor):
             def generic_visit(self_, n):
@@ -785,7 +791,11 @@ class Normaliser(object):
                     continue
             # recurse into blocks
             if isinstance(s, (ast.FunctionDef, ast.AsyncFunctionDef)):
-                s.body = self._do_body(s.body, mn, cls, s if caller_fn is None else caller_fn, [])
+                keep_depth, self._loop_depth = getattr(self, '_loop_depth', 0), 0
+                try:
+                    s.body = self._do_body(s.body, mn, cls, s if caller_fn is None else caller_fn, [])
+                finally:
+                    self._loop_depth = keep_depth
                 out.append(s)
                 continue
             if isinstance(s, ast.ClassDef):
@@ -794,7 +804,12 @@ class Normaliser(object):
             for fld in ('body', 'orelse', 'finalbody'):
                 b = getattr(s, fld, None)
                 if isinstance(b, list) and b and isinstance(b[0], ast.stmt):
-                    setattr(s, fld, self._do_body(b, mn, cls, caller_fn, trys + ([s] if isinstance(s, ast.Try) and fld == 'body' else [])))
+                    looping = isinstance(s, (ast.For, ast.While)) and fld == 'body'
+                    self._loop_depth = getattr(self, '_loop_depth', 0) + (1 if looping else 0)
+                    try:
+                        setattr(s, fld, self._do_body(b, mn, cls, caller_fn, trys + ([s] if isinstance(s, ast.Try) and fld == 'body' else [])))
+                    finally:
+                        self._loop_depth -= 1 if looping else 0
             if isinstance(s, ast.Try):
                 for hd in s.handlers:
                     hd.body = self._do_body(hd.body, mn, cls, caller_fn, trys)
